@@ -36,13 +36,13 @@ CONFIGS = [
     ("scoping", ["Ka1", "Ka2", "Kbs", "Kx", "Tt", "Ttu", "Ar", "Atr"], [True], 4, 5),
     ("values", ["Ka1", "Kan", "Kap", "Kam", "Kac", "Kak", "Kbs", "Kbe", "Kbz", "Kbh", "Kbt", "Kbf", "Kc", "Kce", "Kcm", "Kd", "Kdn", "Kd1", "Kde", "Kdp",
                 "Kcd", "Kcn", "Kn1", "Kn2", "Kl", "Kq"], [True], 2, 3),
-    ("conflicts", ["Ka1", "Kc", "Kce", "Tt", "Ta", "Tc", "Tr", "Ar", "At", "Aa", "Ac", "Atr", "Kx", "Ttu", "Ku"], [True], 3, 4),
+    ("conflicts", ["Ka1", "Kc", "Kce", "Tt", "Ta", "Tc", "Tr", "Ar", "At", "Aa", "Ac", "Atr", "Kx", "Ttu", "Ku"], [True], 3, 3),
     ("malformed", ["Bne", "Bnv", "Bh", "Ba", "Bb", "Bbx", "Bv", "Bo", "Bs", "Bk", "Bj", "Os", "Oa", "Ka1", "Tt", "Z", "Zc"], [True], 3, 4),
     ("lenient", ["M1", "E1", "D1", "Ka1", "Kbs", "Tt", "Kx", "Ttc", "Ars"], [True], 3, 4),
     ("hang", ["H1", "H2", "H3", "Ka1", "Tt", "Zc"], [True, False], 2, 3),
-    ("blank", ["Z", "Zc", "Zs", "Zt", "Ka1", "Tt", "Kx2", "Ttc", "Kac", "Kbh"], [True], 3, 4),
+    ("blank", ["Z", "Zc", "Zs", "Zt", "Ka1", "Tt", "Kx2", "Ttc", "Kac", "Kbh"], [True], 3, 3),
     ("eof", ["Ka1", "Kbs", "Tt", "Ar", "Z", "Zc", "Bnv", "Os", "Oa", "Kc", "Kbt", "Kd", "Kcm"], [False], 2, 3),
-    ("roundtrip", ["Tt", "Ttu", "Ar", "Atr", "Kx", "Ky", "Kd1", "Kdp", "Kcn", "Kcd", "Kce", "Kbe", "Z"], [True], 3, 4),
+    ("roundtrip", ["Tt", "Ttu", "Ar", "Atr", "Kx", "Ky", "Kd1", "Kdp", "Kcn", "Kcd", "Kce", "Kbe", "Z"], [True], 3, 3),
 ]
 
 
@@ -189,7 +189,7 @@ def run(ck):
     ck.make("drv_toml.asan")
     ck.rule = ("cases = ALL states of Toml.tla per line-lexeme family (scoping by headers, every value kind, name conflicts, malformed lines, "
                "lenient readings, non-terminating lines, blank / comment lines, no final newline, round-trip-sensitive values): every document "
-               "of up to MaxLen lines (quick 2-4, thorough 3-5; a document the as-built semantics gives up on is a case but is not extended); "
+               "of up to MaxLen lines (quick 2-4, thorough 3-5 for the scoping / values / malformed / lenient families; a document the as-built semantics gives up on is a case but is not extended); "
                "expected tree / rejection / round trip by TomlOps!Eval. Non-trivial = a document with a header or at least two lines")
     bg = cf.ThreadPoolExecutor(max_workers=1)
     devf = bg.submit(dev_selftest, ck)
